@@ -65,8 +65,9 @@ MANIFEST = dict(
          'reader\'s size for every face count; each detail-prop class is written by its own branch; all 28 index tables of the writers have a '
          'key that determines the record; all 8 loops over local index tables reach every entry; the rebuild order is topological for the 28 '
          'append edges. The premises are kernel-checked for '
-         'today\'s source on every run (295 obligations). Models are compared byte-exactly with CPython struct, runlength_encode/decode, '
-         'binformat.find_or_* (with key functions), binformat.DeferredWrites, _lmp_write/read_textures, write_ent_data/_lmp_read_ents, the '
+         'today\'s source on every run (296 obligations). Models are compared byte-exactly with CPython struct, runlength_encode/decode, '
+         'binformat.find_or_* (with key functions), binformat.DeferredWrites, _lmp_write/read_textures, write_ent_data/_lmp_read_ents (output '
+         'delays / times given as Python ints or bools must be written as decimal numerals with that value, evaluated in Coq), the '
          'PHYSCOLLIDE lump of _lmp_write/read_bmodels; generated lump contents (incl. '
          'near-duplicate objects, and objects reachable ONLY through references of other objects - grafted sub-trees of nodes, leafs, faces, '
          'original faces, brushes, sides, planes, texinfo, texdata at depth >= 2) are assigned to all 20 views '
@@ -590,6 +591,10 @@ Definition chk_ent_read (c : list N * option (list (list item))) : bool :=
   | None, None => true
   | _, _ => false
   end.
+(* the value of a decimal numeral: digits, optionally after one '-' *)
+Fixpoint dec_acc (l : list N) (acc : Z) : option Z := match l with [] => Some acc | c :: r => if is_digit c then dec_acc r (acc * 10 + Z.of_N (c - 48)%N)%Z else None end.
+Definition dec_val (l : list N) : option Z := match l with [] => None | 45%N :: [] => None | 45%N :: r => option_map Z.opp (dec_acc r 0%Z) | _ => dec_acc l 0%Z end.
+Definition chk_ent_int (c : Z * list N) : bool := match dec_val (snd c) with Some z => Z.eqb z (fst c) | None => false end.
 Definition chk_ent_ok (c : list N * bool) : bool :=
   let '(bytes, ok) := c in Bool.eqb (match ent_read float_ok int_ok bytes with Some _ => true | None => false end) ok.
 '''
@@ -612,6 +617,10 @@ def corr_ent(ck: Ck) -> None:
     A_VAL = 'abc01 "\\n\t\n\udce9,;'
     wr, rd, okc = [], [], []
     dmg_msgs: list[str] = []
+    nums: list[str] = []
+    nums_src: list[tuple] = []
+    # delays as callers give them: floats, integer-valued floats, Python ints (whole seconds; multiples of ten), bools
+    DELAYS = [0.0, 1.0, 0.5, 2.25, 10.0, 0.125, 1e6, 100.0, 30.0, 0, 1, 10, 100, 30, 20, 1000, 7, 12, True, False]
     for i in range(n):
         comma = rng.random() < 0.5
         vmf = VMF()
@@ -637,7 +646,18 @@ def corr_ent(ck: Ck) -> None:
             for _ in range(rng.choice([0, 0, 1, 2])):
                 fa = 'abT1 "\\n\t\udce9' + ('' if comma else ',')
                 e.add_out(Output(txt(fa, (1, 3, 6)), txt(fa), txt(fa), txt(fa + ('\n' if True else '')),
-                                 rng.choice([0.0, 1.0, 0.5, 2.25, 10.0, 0.125, 1e6]), times=rng.choice([-1, 1, 5]), comma_sep=comma))
+                                 rng.choice(DELAYS), times=rng.choice([-1, 1, 5, 0, 10, 100]), comma_sep=comma))
+                o = e.outputs[-1]
+                # the number format of the output line, judged on its own: a delay / times given as a Python int (or bool) n must be
+                # written as a decimal numeral denoting n (the two last fields of the line cannot contain the separator)
+                line = o.as_keyvalue()
+                flds = line.rstrip('\n').rstrip('"').rsplit(',' if comma else Output.SEP, 2)
+                for nm, val, text_ in (('delay', o.delay, flds[-2] if len(flds) == 3 else line), ('times', o.times, flds[-1])):
+                    if isinstance(val, int):
+                        nums.append(f'(({int(val)})%Z, {nlist(bs(text_))})')
+                        nums_src.append((nm, val, comma, line))
+                        ck.count('ent_lump_int_number_cases')
+                        ck.hist('ent_lump_int_delay', repr(val) if nm == 'delay' else 'times')
         model = []
         for e in ents:
             its = [f'IKV {nlist(bs(k))} {nlist(bs(v))}' for k, v in e.items()]
@@ -709,9 +729,24 @@ def corr_ent(ck: Ck) -> None:
             ck.count('ent_lump_damaged_cases')
             ck.hist('ent_lump_damaged_outcome', 'accepted' if ok else 'rejected')
     ck.sample({'ent_lump_case(comma_sep, entities as items, bytes written by write_ent_data)': wr[3][:400]})
-    b1, b2_, b3 = yield [('chk_ent_write', 'bool * list (list item) * list N', wr, 'ent_w', IMPORTS_GLUE, PRE_ENT),
+    b1, b2_, b3, b4 = yield [('chk_ent_write', 'bool * list (list item) * list N', wr, 'ent_w', IMPORTS_GLUE, PRE_ENT),
                          ('chk_ent_read', 'list N * option (list (list item))', rd, 'ent_r', IMPORTS_GLUE, PRE_ENT),
-                         ('chk_ent_ok', 'list N * bool', okc, 'ent_d', IMPORTS_GLUE, PRE_ENT)]
+                         ('chk_ent_ok', 'list N * bool', okc, 'ent_d', IMPORTS_GLUE, PRE_ENT),
+                         ('chk_ent_int', 'Z * list N', nums, 'ent_n', IMPORTS_GLUE, PRE_ENT)]
+    if b4 is None:
+        ck.obligation('correspondence:ent_output_int_numbers', False, 'model could not be evaluated')
+        ck.tie_broken.append('correspondence entity lump int numbers: model evaluation failed')
+    else:
+        ck.obligation('correspondence:ent_output_int_numbers', not b4,
+                      f'{len(nums)} delay / times fields given as Python ints or bools, as Output.as_keyvalue writes them with either separator: '
+                      f'each is a decimal numeral whose value (dec_val, evaluated in Coq) is the int: {len(b4)} disagreements')
+        for i in b4[:1]:
+            nm, val, comma_, line = nums_src[i]
+            ck.violation('ents:text:int-number',
+                         f'Output.{nm} = {val!r} (a Python {type(val).__name__}) is written as {line!r}: the {nm} field is not a decimal numeral denoting {int(val)}',
+                         {'field': nm, 'value': repr(val), 'comma_sep': comma_, 'line': line,
+                          'how': f'Output("OnTrigger", "t", "Kill", "", {val!r} as {nm}, comma_sep={comma_}).as_keyvalue(); the {nm} field must denote {int(val)}'})
+            ck.explain('correspondence:ent_output_int_numbers')
     if b1 is None or b2_ is None or b3 is None:
         ck.obligation('correspondence:ent_lump', False, 'model could not be evaluated')
         ck.tie_broken.append('correspondence entity lump: model evaluation failed')
@@ -1409,6 +1444,52 @@ def high_precision_delay_probe(ck: Ck, base: str, wd: str) -> None:
                      {'delay': 1234567.0, 'read_back': got, 'how': 'Output(..., delay=1234567.0) in bsp.ents; save; re-read'})
 
 
+def int_number_probe(ck: Ck, base: str, wd: str) -> None:
+    """Output.delay / Output.times are not converted by the constructor: scripts pass whole seconds as Python ints (or bools, or
+    integer-valued floats).  Whatever number is assigned must come back numerically equal after save + re-read, either separator."""
+    import contextlib
+    import io
+    import shutil
+
+    import srctools.bsp as B
+    from srctools.vmf import VMF, Output
+    rng = random.Random(ck.seed ^ 0xC1106)
+    pool = [0, 1, 10, 100, 30, 20, 1000, 7, 12, 250, True, False, 10.0, 100.0, 0.0, 30.0, 2.5, rng.randrange(1, 100) * 10, rng.randrange(0, 100000)]
+    for comma in (False, True):
+        delays = rng.sample(pool, 8) + [10, 0]
+        cases = [(d, rng.choice([-1, 1, 10, 100, 0, 5])) for d in delays]
+        path = os.path.join(wd, f'intnum_{int(comma)}.bsp')
+        shutil.copy(base, path)
+        b = B.BSP(path)
+        vmf = VMF()
+        vmf.spawn['classname'] = 'worldspawn'
+        e = vmf.create_ent('logic_relay')
+        for d, t in cases:
+            e.add_out(Output('OnTrigger', 'x', 'Kill', '', d, times=t, comma_sep=comma))
+        b.ents = vmf
+        b.out_comma_sep = comma
+        ck.count('directed_probes')
+        how = (f'outputs Output("OnTrigger", "x", "Kill", "", delay, times=times, comma_sep={comma}) for (delay, times) in {cases!r} on one entity '
+               f'of bsp.ents; out_comma_sep = {comma}; save; re-read')
+        try:
+            with contextlib.redirect_stdout(io.StringIO()):
+                b.save(path)
+            got = [(o.delay, o.times) for o in B.BSP(path).ents.entities[0].outputs]
+        except Exception as exc:   # noqa: BLE001
+            ck.violation('ents:output-int-number:unreadable',
+                         f'outputs with delays {[c[0] for c in cases]!r} ({"comma" if comma else "0x1B"} separator) cannot be saved and re-read: '
+                         f'{type(exc).__name__}: {exc}'[:300], {'cases': repr(cases), 'comma_sep': comma, 'how': how})
+            continue
+        for c in cases:
+            ck.seen(('intnum', comma, repr(c)))
+        bad = [(c, g) for c, g in zip(cases, got) if not (c[0] == g[0] and c[1] == g[1])]
+        if len(got) != len(cases) or bad:
+            ck.violation('ents:output-int-number',
+                         f'output numbers are not read back ({"comma" if comma else "0x1B"} separator): '
+                         + (f'assigned (delay, times) = {bad[0][0]!r}, re-read {bad[0][1]!r}' if bad else f'{len(cases)} outputs written, {len(got)} read'),
+                         {'cases': repr(cases), 'read_back': repr(got), 'comma_sep': comma, 'how': how})
+
+
 # ------------------------------------------------------------------------------------------------ main
 def coq_strs(xs: list[str]) -> str:
     out = 'nil'
@@ -1656,6 +1737,7 @@ def run(ck: Ck) -> None:
         if base is not None:
             guarded(ck, 'reject_probes', reject_probes, ck, base, wd)
             guarded(ck, 'output_delay_probe', high_precision_delay_probe, ck, base, wd)
+            guarded(ck, 'int_number_probe', int_number_probe, ck, base, wd)
             lap('reject_probes')
             guarded(ck, 'version_histories', version_histories, ck, base, wd)
             guarded(ck, 'retry_histories', retry_histories, ck, base, wd)
@@ -1690,7 +1772,7 @@ def run(ck: Ck) -> None:
         ck.explain('instance:vis_')
     if any(k.startswith('ents') for k in keys):
         ck.explain('instance:ent_')
-        ck.explain('correspondence:ent_lump')
+        ck.explain('correspondence:ent_')
     if any(k.startswith('textures') or k.startswith('texinfo') for k in keys):
         ck.explain('instance:texdata_')
         ck.explain('correspondence:texdata_strings')
@@ -1748,8 +1830,10 @@ def run(ck: Ck) -> None:
             # a translator that fails closed names the function whose shape it did not recognise: a concrete mismatch of the view that
             # function reads / writes (or a save / re-read that fails altogether) explains it
             import re
-            for m in re.finditer(r'_lmp_(?:write|read)_(\w+)|(_write_faces_common|_read_faces_common)|\b(save)\(\)', o.get('detail', '')):
-                st = m.group(1) or ('faces' if m.group(2) else '')
+            for m in re.finditer(r'_lmp_(?:write|read)_(\w+)|(_write_faces_common|_read_faces_common)|\b(save)\(\)|(write_ent_data|Output\.\w+|escape_text)',
+                                 o.get('detail', '')):
+                # (write_ent_data / Output.as_keyvalue / Output.SEP / escape_text: the text of the entity lump)
+                st = m.group(1) or ('faces' if m.group(2) else 'ents' if m.group(4) else '')
                 if m.group(3) and hit_views:
                     ck.explain(nm)
                 for pref, views in list(view_of.items()) + [('props', ['props']), ('detail_props', ['detail_props']), ('visleafs', ['visleafs']),
@@ -1838,6 +1922,47 @@ def replay(data: dict) -> int:
             except Exception as e:   # noqa: BLE001
                 print('lump', bytes(r['lump']), 'is read with', type(e).__name__, e)
             return 1
+        if 'cases' in r and 'comma_sep' in r:
+            import ast
+            import contextlib
+            import io
+
+            import srctools.bsp as B
+            from srctools.vmf import VMF, Output
+            cases = ast.literal_eval(r['cases'])
+            path = os.path.join(wd, 'intnum.bsp')
+            shutil_copy = __import__('shutil').copy
+            shutil_copy(base, path)
+            b = B.BSP(path)
+            vmf = VMF()
+            vmf.spawn['classname'] = 'worldspawn'
+            e = vmf.create_ent('logic_relay')
+            for d, t in cases:
+                e.add_out(Output('OnTrigger', 'x', 'Kill', '', d, times=t, comma_sep=r['comma_sep']))
+            b.ents = vmf
+            b.out_comma_sep = r['comma_sep']
+            try:
+                with contextlib.redirect_stdout(io.StringIO()):
+                    b.save(path)
+                got = [(o.delay, o.times) for o in B.BSP(path).ents.entities[0].outputs]
+            except Exception as e2:   # noqa: BLE001
+                print('assigned (delay, times)', cases, 'save + re-read raises', type(e2).__name__, e2)
+                return 1
+            print('assigned (delay, times)', cases, 're-read', got)
+            return 1 if len(got) != len(cases) or any(c[0] != g[0] or c[1] != g[1] for c, g in zip(cases, got)) else 0
+        if 'line' in r and 'field' in r:
+            import ast
+
+            from srctools.vmf import Output
+            val = ast.literal_eval(r['value'])
+            o = Output('OnTrigger', 't', 'Kill', '', val if r['field'] == 'delay' else 0.0, times=val if r['field'] == 'times' else -1, comma_sep=r['comma_sep'])
+            line = o.as_keyvalue()
+            text_ = line.rstrip('\n').rstrip('"').rsplit(',' if r['comma_sep'] else Output.SEP, 2)[-2 if r['field'] == 'delay' else -1]
+            print('Output.' + r['field'], '=', repr(val), 'is written as', repr(line), '- field text', repr(text_))
+            try:
+                return 0 if int(text_) == int(val) and text_.strip() == text_ else 1
+            except ValueError:
+                return 1
         if 'blocks' in r:
             from weakref import WeakKeyDictionary
 
